@@ -186,6 +186,13 @@ func NewTraceObserver(cfg *Config) *TraceObserver {
 // This should only be called on a single go routine. Concurrent calls might
 // case race conditions due to missing locking around the capacity counter.
 func (to *TraceObserver) QueueBatch(count uint64, batch []byte) {
+	// A batch without spans has nothing to deliver. Queuing it would occupy
+	// a slot of the channel without consuming any of the span capacity, so
+	// that enough of them would fill the channel and block the caller.
+	if count == 0 {
+		return
+	}
+
 	if to.isShutdownInitiated() {
 		if !to.isShutdownComplete() {
 			to.closeMessages()
